@@ -255,10 +255,17 @@ class C07(vlib.Spec):
             "combinations), the registered retention action, Tick, DeleteOldestSegment, reopen; hist.ttlupd: TTL changed through "
             "UpdateOptions between runs; hist.force: forced cleanup down to the last segment racing retention (both orders); "
             "hist.evtime: tick event time ahead of / behind the clock; hist.shrink: interval decrease + reopen with the long segment "
-            "newest/oldest/middle, clock inside its persisted range + TTL; non-trivial = distinct history")
+            "newest/oldest/middle, clock inside its persisted range + TTL; odb.stream/measure/trace: the engines' real supplier.OpenDB "
+            "for groups with 0-3 lifecycle stages and node labels matching stage k / none / absent (oracle only: options of the opened "
+            "database = pub.ResolveStage = cumulative-TTL specification); non-trivial = distinct history")
+
+    def compare(self, line, go_out, lean_out):
+        if line.startswith("odb"):
+            return True  # oracle only: option derivation of supplier.OpenDB has no Lean model
+        return go_out == lean_out
 
     def cases(self, rng, n):
-        out = []
+        out = L.odb_cases(rng, max(96, n // 10))
         for i in range(n):
             r = i % 10
             if r < 4:
